@@ -62,9 +62,27 @@ def laws(ctx, n):
             ctx.expect(r1.b(0) != bytes(L.Npk), "shared secret is not all-zero")
 
 
+def serde_keys(ctx):
+    """key encodings also round-trip exactly through the serde encodings of the objects that carry them"""
+    ctx.nontrivial = True
+    f = honest_flow(ctx)
+    ctx.counting = True
+    enc_ = encodings(f)
+    for ty in ("RegistrationResponse", "RegistrationUpload", "ServerRegistration", "CredentialRequest", "CredentialResponse",
+               "ServerSetup", "ClientLogin"):
+        for fmt in ("bincode", "json"):
+            r = ctx.call("serde_enc", ty, fmt, enc_[ty], impl_only=True)
+            if r is None:
+                continue
+            if ctx.expect(r.ok, "%s (with its keys) encodes through serde-%s" % (ty, fmt)):
+                rr = ctx.call("serde_dec", ty, fmt, r.b(0), impl_only=True)
+                ctx.expect(rr.ok and rr.b(0) == enc_[ty], "keys inside %s round-trip exactly through serde-%s (%s)" % (ty, fmt, rr.err))
+
+
 def cases(tier, seed):
     out = []
     ss = ALL_SUITES if tier == "thorough" else suites_for(tier, seed) + ["P256/X25519", "P384/R255", "P521/P256"]
     for si, s in enumerate(dict.fromkeys(ss)):
         out.append(dict(script=laws, suite=s, seed=seed * 1000 + si, mode="raw", params=dict(n=(4 if tier == "quick" else 24))))
+        out.append(dict(script=serde_keys, suite=s, seed=seed * 1000 + 500 + si, mode="raw", params={}))
     return out
